@@ -51,6 +51,10 @@ var policyTexts = []string{
 	`permit(principal, action, resource) when { [context.a, 1].contains(2) || {k: context.a}.k == 2 };`,
 	`forbid(principal, action, resource) when { context.s.containsAll([context.a]) && !context.s.containsAny([3, context.r.b]) };`,
 	`permit(principal is U, action, resource) when { principal in [resource, G::"g2"] } unless { context.a == 1 } unless { context.r.b == 2 };`,
+	// every operator that takes a set of entities, on the context set that holds the variable
+	`permit(principal, action, resource) when { principal is U in context.g };`,
+	`forbid(principal, action, resource) when { context.g.containsAny([principal, resource]) && resource is G in [principal, G::"g1"] };`,
+	`permit(principal, action, resource) when { context.g.isEmpty() || context.g.containsAll([G::"g1"]) || context.g == [resource] };`,
 }
 
 var policies []*cedar.Policy
